@@ -39,7 +39,7 @@ impl CacheImplDetails for Spy {
     fn get_by_key(&self, key: &KeyType) -> CacheResult<Record> {
         self.inner.get_by_key(key)
     }
-    fn check_if_expired(&self, key: &KeyType, record: &Record) -> bool {
+    fn check_if_expired(&self, key: &KeyType, record: &Record) -> Option<usize> {
         self.inner.check_if_expired(key, record)
     }
 }
@@ -459,6 +459,7 @@ pub fn run_case(cfg: &CaseCfg, events: &mut dyn FnMut(&[Vec<u8>], bool) -> Optio
                 if b.is_empty() {
                     continue;
                 }
+                crate::watch::about_to(trace, obs, &format!("{}C {} {}\nD\n", if cfg.mem_limit.is_some() { "O\n" } else { "" }, i, hex(&b)));
                 let out = w.feed(i, &b);
                 let v = w.take_victims();
                 if cfg.mem_limit.is_some() {
@@ -509,6 +510,7 @@ pub fn run_case(cfg: &CaseCfg, events: &mut dyn FnMut(&[Vec<u8>], bool) -> Optio
             }
         }
     }
+    crate::watch::case_done();
 }
 
 /// Parses the events of a trace file (oracle and group lines are re-observed).
